@@ -5,4 +5,6 @@ set -e
 python3-vt -c "import z3, sympy, numpy; print('prover ok: z3', z3.get_version_string(), 'sympy', sympy.__version__)"
 /venv/bin/python -c "import numpy, toqito; print('executor ok: toqito from', toqito.__path__[0])"
 test -x /usr/bin/cvc5 && echo "cvc5 ok" || echo "cvc5 CLI missing (z3 unknowns will stay undecided)"
+# the one arithmetic rule built into the E1-array generator, re-proved in Lean (core library only)
+if command -v lean >/dev/null 2>&1; then (cd /verif/lean && lean MixedRadix.lean && echo "lean ok: mixed-radix rule re-checked") || echo "lean check of the mixed-radix rule FAILED (trusted base item, reported only)"; else echo "lean not on PATH: mixed-radix rule not re-checked"; fi
 mkdir -p /verif/evidence /verif/replays
